@@ -1,6 +1,8 @@
 import ModbusProofs.Lemmas.Frames
 import ModbusProofs.Lemmas.Slice
 import Modbus.Driver.JudgePacket
+import Modbus.Model.Builder
+import Mathlib.Tactic.SplitIfs
 /-
   C11 — Coil lookup follows the Modbus bit layout and inverts the library's packing.
 
@@ -82,5 +84,85 @@ theorem write_readback (cs : List Bool) (i : Nat) (h : i < cs.length) :
     specCoilAt (coilsToBytes cs) i = cs.getD i false := by
   unfold specCoilAt
   exact coilsToBytes_bit cs i h
+
+/-! ### coil fields extracted through the request builder
+
+`BuilderRequest.ExtractFields` on a coil / discrete input response is one lookup per field, in field order, with the
+request's start address: every reported value is exactly `isBitSet payload start field.address`, so everything proved
+above about the lookup (errors before the start and beyond the last bit, Modbus layout outside the known-finding
+region) carries over to every field, however many fields share an address. -/
+
+/-- what the extraction reports for one field: the result of its own lookup -/
+def coilVal (payload : Bytes) (start : UInt16) (f : Field) : PRes Val :=
+  match isBitSet payload start f.addr with
+  | .ok b => .ok (.bool b)
+  | .err e => .err e
+  | .panic => .panic
+
+/-- the lookup never panics (it indexes inside the payload after its two range checks) -/
+theorem isBitSet_no_panic (d : Bytes) (start addr : UInt16) : isBitSet d start addr ≠ .panic := by
+  unfold isBitSet
+  dsimp only
+  split_ifs
+  · intro h; cases h
+  · intro h; cases h
+  · rename_i h1 h2
+    have : d.length - 1 - (addr - start).toNat / 8 < d.length := by omega
+    simp (disch := omega) only [idx_eq, Res.bind_ok]
+    intro h; cases h
+
+/-- the extraction loop in lenient mode reports every field, in order, with the result of its own lookup; the
+outcome is `all` when no lookup failed and `some` otherwise -/
+theorem coilLoop_lenient (payload : Bytes) (start : UInt16) (fs : List Field) (acc : List (Field × PRes Val)) (he : Bool) :
+    extractCoilLoop true payload start fs acc he =
+        .all (acc ++ fs.map fun f => (f, coilVal payload start f)) ∨
+    extractCoilLoop true payload start fs acc he =
+        .some_ (acc ++ fs.map fun f => (f, coilVal payload start f)) := by
+  induction fs generalizing acc he with
+  | nil => cases he <;> simp [extractCoilLoop]
+  | cons f rest ih =>
+    unfold extractCoilLoop
+    cases hb : isBitSet payload start f.addr with
+    | panic => exact absurd hb (isBitSet_no_panic _ _ _)
+    | err e =>
+      have hv : coilVal payload start f = .err e := by simp [coilVal, hb]
+      simp only [Bool.not_true, Bool.false_eq_true, if_false, List.map_cons, hv]
+      have := ih (acc ++ [(f, .err e)]) true
+      simpa [List.append_assoc] using this
+    | ok v =>
+      have hv : coilVal payload start f = .ok (.bool v) := by simp [coilVal, hb]
+      simp only [List.map_cons, hv]
+      have := ih (acc ++ [(f, .ok (.bool v))]) he
+      simpa [List.append_assoc] using this
+
+/-- strict mode: when every field's lookup succeeds every field is reported with its own value -/
+theorem coilLoop_strict_all_ok (payload : Bytes) (start : UInt16) (fs : List Field) (acc : List (Field × PRes Val))
+    (hok : ∀ f ∈ fs, ∃ b, isBitSet payload start f.addr = .ok b) :
+    extractCoilLoop false payload start fs acc false =
+      .all (acc ++ fs.map fun f => (f, coilVal payload start f)) := by
+  induction fs generalizing acc with
+  | nil => simp [extractCoilLoop]
+  | cons f rest ih =>
+    obtain ⟨b, hb⟩ := hok f List.mem_cons_self
+    have hv : coilVal payload start f = .ok (.bool b) := by simp [coilVal, hb]
+    unfold extractCoilLoop
+    rw [hb]
+    simp only [List.map_cons, hv]
+    rw [ih _ (fun g hg => hok g (List.mem_cons_of_mem _ hg))]
+    simp [List.append_assoc]
+
+/-- strict mode: a field whose lookup is an error makes the extraction fail as a whole -/
+theorem coilLoop_strict_fails (payload : Bytes) (start : UInt16) (pre : List Field) (f : Field) (post : List Field)
+    (acc : List (Field × PRes Val)) (hpre : ∀ g ∈ pre, ∃ b, isBitSet payload start g.addr = .ok b)
+    (e : PErr) (hf : isBitSet payload start f.addr = .err e) :
+    extractCoilLoop false payload start (pre ++ f :: post) acc false = .failed := by
+  induction pre generalizing acc with
+  | nil => simp [extractCoilLoop, hf]
+  | cons g rest ih =>
+    obtain ⟨b, hb⟩ := hpre g List.mem_cons_self
+    simp only [List.cons_append]
+    unfold extractCoilLoop
+    rw [hb]
+    exact ih _ (fun x hx => hpre x (List.mem_cons_of_mem _ hx))
 
 end Modbus.Properties.C11
